@@ -570,7 +570,15 @@ func (s *vcfgStation) project(withHK bool, notes *[]string) map[string]any {
 	}
 	st := map[string]any{"up": true, "covert": covert, "domain": domain, "phantom": phantom, "sel": vcfgSelName(s.rm), "geo": geo}
 	if withHK {
-		s.populate()
+		// ordinary station traffic under this configuration (ingest, statistics, liveness queries): a panic here is as fatal
+		// as one in the housekeeping itself - no module counts as having run safely then
+		if msg := vcfgTry(s.populate); msg != "" {
+			if notes != nil {
+				*notes = append(*notes, "traffic: "+msg)
+			}
+			st["hk"] = hk
+			return st
+		}
 		for _, m := range vcfgModules {
 			if msg := s.housekeep(m); msg == "" {
 				hk = append(hk, m)
